@@ -755,11 +755,16 @@ theorem ofNat_ne_zero {n : Nat} (h : 1 ≤ n) : (MathOps.ofNat n : α) ≠ 0 := 
   exact Nat.cast_ne_zero.mpr (by omega)
 
 theorem planArc_ok (p : Position α) (endX endY i j : α) (cw : Bool) (hx : AxisOk p.x) (hy : AxisOk p.y) :
-    ERP.planArc p endX endY i j cw = .ok (T.planArc p endX endY i j cw) := by
+    ERP.planArc p endX endY i j (-i) (-j) cw = .ok (T.planArc p endX endY i j cw) := by
   unfold ERP.planArc T.planArc
   simp only [n2l_ok hx, n2l_ok hy, ok_bind]
   rw [pyDiv_ok _ _ (ofNat_ne_zero (le_max_left 1 _))]
   rfl
+
+theorem planArc_ok' (p : Position α) (endX endY i j ni nj : α) (cw : Bool) (hx : AxisOk p.x) (hy : AxisOk p.y)
+    (hi : ni = -i) (hj : nj = -j) :
+    ERP.planArc p endX endY i j ni nj cw = .ok (T.planArc p endX endY i j cw) := by
+  subst hi hj; exact planArc_ok p endX endY i j cw hx hy
 
 theorem pyAbs_eq (x : α) : pyAbs x = |x| := by
   unfold pyAbs
@@ -819,11 +824,13 @@ theorem handleG2_ok (cfg : Config) (s : FState α) (cmd : Cmd α) (cw : Bool) (h
   | none =>
     simp only [pure_eq_ok, ok_bind]
     split
-    · rw [planArc_ok _ _ _ _ _ _ hx hy]; simp only [ok_bind]
+    · rw [planArc_ok' _ _ _ _ _ _ _ _ hx hy
+        (by cases lastValue cmd.words 'I' <;> simp) (by cases lastValue cmd.words 'J' <;> simp)]
+      simp only [ok_bind]
       exact processLinearMoves_ok cfg s cmd _ _ _ _ h
     · rfl
   | some r =>
-    simp only [computeArcCenterOffsets_ok _ _ _ _ _ hx hy, ok_bind]
+    simp only [computeArcCenterOffsets_ok _ _ _ _ _ hx hy, ok_bind, pure_eq_ok]
     generalize T.computeArcCenterOffsets s.position _ _ r cw = ij
     obtain ⟨i, j⟩ := ij
     simp only
